@@ -169,6 +169,32 @@ func (tr *Translator) lookupIdent(name string) tv {
 			}
 			return tv{f.val(best.val), best.val.Type()}
 		}
+		// no debug reference reaches this block: the closest dominating phi that merges this source variable
+		// (a named result assigned on one branch only and not mentioned again before a naked return)
+		var bphi *ssa.Phi
+		for _, b := range f.fn.Blocks {
+			if b != tr.block && !b.Dominates(tr.block) {
+				continue
+			}
+			for _, in := range b.Instrs {
+				phi, ok := in.(*ssa.Phi)
+				if !ok {
+					break
+				}
+				if phi.Comment != name {
+					continue
+				}
+				if _, ok := f.vals[phi]; !ok {
+					continue
+				}
+				if bphi == nil || bphi.Block().Dominates(phi.Block()) {
+					bphi = phi
+				}
+			}
+		}
+		if bphi != nil {
+			return tv{f.vals[bphi], bphi.Type()}
+		}
 	} else if v, ok := f.params[name]; ok {
 		return tv{v, f.paramTy[name]}
 	}
@@ -775,6 +801,9 @@ func (tr *Translator) call(c *ECall) tv {
 		tr.fail("addrof(%s): no such address-taken variable here", id.Name)
 	case "ptrlike":
 		return tv{App(SBool, "ptrlike", App(SInt, "tag", arg(0).t)), tyBool}
+	case "slicelike":
+		// the dynamic type of the interface value is a slice type
+		return tv{App(SBool, "slicelike", App(SInt, "tag", arg(0).t)), tyBool}
 	case "ptrval":
 		return tv{App(SInt, "pl_Int", arg(0).t), tyInt}
 	case "isfinite":
@@ -861,6 +890,18 @@ func (tr *Translator) call(c *ECall) tv {
 	case "int32wrap":
 		r, _ := rangeOf(types.Typ[types.Int32])
 		return tv{wrapTo(arg(0).t, r), tyInt}
+	case "embed0":
+		// pointer to the struct embedded as the first field of *p (same address, type of that field)
+		v := arg(0)
+		pt, ok := v.ty.Underlying().(*types.Pointer)
+		if !ok {
+			tr.fail("embed0 of a non-pointer")
+		}
+		st, ok := pt.Elem().Underlying().(*types.Struct)
+		if !ok || st.NumFields() == 0 || !st.Field(0).Embedded() {
+			tr.fail("embed0: the first field is not an embedded struct")
+		}
+		return tv{v.t, types.NewPointer(st.Field(0).Type())}
 	case "addr":
 		// address value of a pointer expression
 		return tv{arg(0).t, tyInt}
@@ -1045,7 +1086,11 @@ func (f *Frame) readSort(name string) Sort {
 			}
 		}
 	case strings.HasPrefix(name, "SH_"):
-		return ArrSort(SInt, ArrSort(SInt, sortFromSuffix(name[3:])))
+		sfx := name[3:]
+		if i := strings.Index(sfx, "$"); i >= 0 {
+			sfx = sfx[:i]
+		}
+		return ArrSort(SInt, ArrSort(SInt, sortFromSuffix(sfx)))
 	case strings.HasPrefix(name, "MH_"):
 		parts := strings.SplitN(name[3:], "_", 2)
 		return ArrSort(SInt, ArrSort(sortFromSuffix(parts[0]), sortFromSuffix(parts[1])))
